@@ -415,6 +415,38 @@ func init() {
 
 	// ----- reflect (type identity only) -----
 	reg("reflect.TypeOf", pure(func(it *Interp, a []Value) Value { return it.rtypeOf(a[0].(Iface).T) }))
+	// reflect.Value, restricted to "what kind of value does this interface hold, and is it nil" (the typed-nil idiom):
+	// the value is carried in the struct's first field; every other method of reflect.Value stays unsupported
+	reg("reflect.ValueOf", pure(func(it *Interp, a []Value) Value {
+		return StructV{&Native{Kind: "rvalue", Obj: a[0].(Iface)}, nil, mkInt(0, 64, false)}
+	}))
+	rvalOf := func(v Value) Iface {
+		if sv, ok := v.(StructV); ok && len(sv) > 0 {
+			if n, ok := sv[0].(*Native); ok && n != nil && n.Kind == "rvalue" {
+				return n.Obj.(Iface)
+			}
+		}
+		panic(unsupported("reflect.Value not produced by reflect.ValueOf"))
+	}
+	reg("(reflect.Value).Kind", pure(func(it *Interp, a []Value) Value {
+		iv := rvalOf(a[0])
+		if iv.T == nil {
+			return mkInt(0, 64, false) // Invalid
+		}
+		return mkInt(uint64(reflectKind(iv.T)), 64, false)
+	}))
+	reg("(reflect.Value).IsValid", pure(func(it *Interp, a []Value) Value { return BoolV{C: rvalOf(a[0]).T != nil} }))
+	reg("(reflect.Value).IsNil", pure(func(it *Interp, a []Value) Value {
+		iv := rvalOf(a[0])
+		if iv.T == nil {
+			panic(unsupported("reflect: IsNil of the zero Value panics"))
+		}
+		switch iv.T.Underlying().(type) {
+		case *types.Pointer, *types.Map, *types.Slice, *types.Chan, *types.Signature, *types.Interface:
+			return BoolV{C: isNilValue(iv.V)}
+		}
+		panic(unsupported("reflect: IsNil of a non-nillable kind panics"))
+	}))
 	reg("native:rtype.Kind", pure(func(it *Interp, a []Value) Value {
 		t := a[0].(*Native).Obj.(types.Type)
 		return mkInt(uint64(reflectKind(t)), 64, false)
